@@ -27,8 +27,54 @@ Theorem C13_with_suffix_keeps_stem : forall (B : backend) u sfx kq kf u',
 Proof. exact with_suffix_keeps_stem. Qed.
 Print Assumptions C13_with_suffix_keeps_stem.
 
-(** PARTIAL: the remaining clauses (name of u / s, parent of u / s, associativity of
-    joinpath, with_name keeps the parent) are stated as the executable predicate c13_pred
+(** u / s for a segment text s without '/': the name of the result is s (its raw name the
+    quoted s) and the parts of its parent are u's parts without a trailing empty segment -
+    for every base whose path is empty or rooted under an authority, whenever no dot-segment
+    removal is triggered or the base has no dot segments and s is not one.  The one excluded
+    base, the root path without an authority, is F28 (refuted below). *)
+From Yarl Require Import Base.Utf8 Model.Quoters Model.Unquoter Model.Path Spec.QuoteSpec Proofs.ChildProofs.
+Theorem C13_div_name_parent : forall (b : backend) (u : url) (s : str) (u' : url),
+  valid_str s -> no_sur s -> s <> [] -> mem 47%N s = false -> path_ok u ->
+  (nonempty (u_netloc u) = false \/ mem 46%N (quote_impl b PQ s) = false
+   \/ (is_dotseg (quote_impl b PQ s) = false /\ Forall (fun x => is_dotseg x = false) (base_segments (u_path u)))) ->
+  ~ (nonempty (u_netloc u) = false /\ u_path u = [47%N]) ->
+  truediv b u s = Ok u' ->
+  name b u' = s /\ raw_name u' = quote_impl b PQ s
+  /\ raw_parts (parent u') = strip_trailing_empty (raw_parts u)
+  /\ parts b (parent u') = map (unquote_impl b UNQUOTER) (strip_trailing_empty (raw_parts u)).
+Proof. exact div_name_parent. Qed.
+Print Assumptions C13_div_name_parent.
+
+(** the path of u / s itself: u's segments, one trailing empty segment dropped, then the
+    quoted s *)
+Theorem C13_div_path : forall (b : backend) (u : url) (s : str),
+  valid_str s -> mem 47%N s = false -> path_ok u ->
+  (nonempty (u_netloc u) = false \/ mem 46%N (quote_impl b PQ s) = false
+   \/ (is_dotseg (quote_impl b PQ s) = false /\ Forall (fun x => is_dotseg x = false) (base_segments (u_path u)))) ->
+  truediv b u s = Ok (from_parts (u_scheme u) (u_netloc u) (child_path_spec u (quote_impl b PQ s)) [] []).
+Proof. exact make_child_single. Qed.
+Print Assumptions C13_div_path.
+
+(** F28: for the root path without an authority the parent clause fails *)
+Theorem C13_f28_refuted : exists (b : backend) (u : url) (s : str) (u' : url),
+  path_ok u /\ mem 47%N s = false /\ truediv b u s = Ok u'
+  /\ raw_parts (parent u') <> strip_trailing_empty (raw_parts u).
+Proof.
+  exists BPy, (from_parts [] [] [47%N] [] []), [115%N], (from_parts [] [] [47%N; 115%N] [] []).
+  split; [intros N; discriminate N|]. split; [reflexivity|]. split; [vm_compute; reflexivity|].
+  vm_compute. discriminate.
+Qed.
+Print Assumptions C13_f28_refuted.
+
+Example C13_div_example :
+  let u := from_parts [104%N] [104%N] [47%N; 97%N; 47%N] [] [] in              (* h://h/a/ *)
+  exists u', truediv BC u [233%N; 46%N] = Ok u' /\ name BC u' = [233%N; 46%N]
+             /\ raw_parts (parent u') = [[47%N]; [97%N]].
+Proof. eexists. split; [vm_compute; reflexivity|]. split; vm_compute; reflexivity. Qed.
+Print Assumptions C13_div_example.
+
+(** PARTIAL: the remaining clauses (associativity of joinpath for several segments,
+    with_name keeps the parent) are stated as the executable predicate c13_pred
     (Preds/P13.v) and checked on the implementation and on the model by the
     correspondence runs; they are not proved. *)
 
